@@ -234,8 +234,54 @@ def probe_wrappers(D, N, seed):
     return res
 
 
+def probe_ic_set(D, N, seed):
+    """`build_ic_set` = the key-threading loop of the regenerated `Gen.Base.build_ic_set` (bit for bit): sample i is the
+    generator at the second half of the split of the key carried after i samples; S samples with the single-draw shape;
+    a shorter set is a prefix of a longer one; the same key gives the same set"""
+    import jax.random as jr
+    import exponax as ex
+    from exponax import ic
+    res, ok = {}, True
+    for gname, g in [("trunc", ic.RandomTruncatedFourierSeries(D, cutoff=3, offset_range=(0.5, 1.5))),
+                     ("grf", ic.GaussianRandomField(D, powerlaw_exponent=2.5)),
+                     ("multi", ic.RandomMultiChannelICGenerator([ic.RandomTruncatedFourierSeries(D, cutoff=2), ic.DiffusedNoise(D)]))]:
+        key = jr.PRNGKey(seed + 11)
+        S = 4
+        got = np.asarray(ex.build_ic_set(g, num_points=N, num_samples=S, key=key))
+        k, want = key, []
+        for _ in range(S):
+            k, sub = jr.split(k)
+            want.append(np.asarray(g(N, key=sub)))
+        want = np.stack(want)
+        res[gname + "_shape"] = list(got.shape)
+        ok = ok and got.shape == want.shape and got.shape[0] == S and got.shape[2:] == (N,) * D
+        d = float(np.max(np.abs(got - want))) if got.shape == want.shape else float("inf")
+        res[gname + "_vs_loop"] = d
+        ok = ok and d <= 1e-13 * (float(np.max(np.abs(want))) + 1)
+        shorter = np.asarray(ex.build_ic_set(g, num_points=N, num_samples=2, key=key))
+        dp = float(np.max(np.abs(shorter - got[:2]))) if shorter.shape == got[:2].shape else float("inf")
+        res[gname + "_prefix"] = dp
+        again = np.asarray(ex.build_ic_set(g, num_points=N, num_samples=S, key=key))
+        res[gname + "_deterministic"] = float(np.max(np.abs(again - got)))
+        distinct = float(np.max(np.abs(got[0] - got[1])))
+        res[gname + "_distinct"] = distinct
+        ok = ok and dp <= 1e-13 * (float(np.max(np.abs(want))) + 1) and res[gname + "_deterministic"] == 0.0 and distinct > 0 \
+            and bool(np.all(np.isfinite(got)))
+    res["ok"] = bool(ok)
+    return res
+
+
 def oracle(ctx, deep):
     fails = []
+    for D in (1, 2) + ((3,) if deep else ()):
+        try:
+            r = probe_ic_set(D, {1: 16, 2: 9, 3: 6}[D], ctx.seed)
+        except Exception as e:  # noqa: BLE001
+            r = {"ok": False, "exception": f"{type(e).__name__}: {str(e)[:200]}"}
+        ctx.count(("oracle_ic_set", D))
+        if not r["ok"]:
+            fails.append({"key": f"C18:build_ic_set:D{D}", "what": f"build_ic_set (D={D}) is not the key-threading loop over the generator: {r}"[:500],
+                          "probe": "ic_set", "args": {"D": D, "N": {1: 16, 2: 9, 3: 6}[D], "seed": ctx.seed}, "observed": r})
     for D in (1, 2, 3):
         N = {1: 16, 2: 12, 3: 12}[D]
         for name in gens(D):
@@ -262,4 +308,4 @@ def oracle(ctx, deep):
 
 
 def replay(probe, args):
-    return {"contract": probe_contract, "wrappers": probe_wrappers}[probe](**args)
+    return {"contract": probe_contract, "wrappers": probe_wrappers, "ic_set": probe_ic_set}[probe](**args)
